@@ -44,7 +44,13 @@ ASSUMPTIONS = ["'equal custom attributes' means the instance __dict__ (minus _py
                "the library sees it: kind=stream x StopIteration is outside the domain",
                "for an exception class unknown to the receiver only the class name is demanded in the Pyro error text "
                "(the message never reaches the client-side error; reported as an observation, not as a violation)",
-               "the proxy timeout of 20 s is a hang guard: a locally raised timeout is reported as 'no reply'"]
+               "the proxy timeout of 20 s is a hang guard: a locally raised timeout is reported as 'no reply'",
+               "UnicodeEncode/Decode/TranslateError objects whose start/end lie outside their object are outside the domain: str() of such "
+               "an object raises SystemError in CPython 3.12.1 and leaves a stray IndexError pending (interpreter bug, not Pyro's)",
+               "'the proxy remains usable' is demanded for the unserialisable clause only (the statement scopes it so): after a transportable "
+               "SecurityError the server closes the connection by design and nothing is demanded of the next call",
+               "when a serializer degrades an unserialisable attribute instead of failing (serpent/json turn a function into a class-name "
+               "marker) the arrival of the ORIGINAL class with equal args and equal other attributes is accepted"]
 
 SERIALIZERS = ["serpent", "json", "marshal", "msgpack"]
 SERVERTYPES = ["thread", "multiplex"]
@@ -147,8 +153,15 @@ def _cleanup_objects():
             pass
 
 
+SPEC_ALTERED = "C07 harness precondition: the exception spec did not reach the server as the plain data that was sent"
+
+
 def build_exception(spec):
     """spec (plain data) -> exception instance.  Used by the server-side target AND locally for the expectation."""
+    if not (V.is_core(spec.get("args")) and V.is_core(spec.get("attrs"))):
+        # the oracle compares against a LOCAL instance built from the same spec: that is only meaningful when the call
+        # argument itself crossed the wire unchanged (C01's business, but cheap to notice here)
+        raise RuntimeError("%s: %.200r" % (SPEC_ALTERED, spec))
     cls = lookup_class(spec["ns"], spec["cls"])
     sp = spec.get("special") or {}
     args = list(spec.get("args") or [])
@@ -473,6 +486,8 @@ def run_live_case(case):
 
     s = served(case["servertype"])
     p = live.proxy(s.uri(OBJ_ID), serializer=ser, timeout=HANG_GUARD_S)
+    scope = live.ConfigScope(DETAILED_TRACEBACK=bool(case.get("detailed", False)))
+    scope.__enter__()
     try:
         out = _perform(p, case)
         want_good = 0 if kind in ("call", "getattr", "setattr", "batch-first") else case.get("k", 0)
@@ -491,8 +506,15 @@ def run_live_case(case):
                 if r != "pong":
                     viol("next-call-fails:" + pathgroup(kind), "ping() after the failed call returned %r" % (r,))
             except Exception as x2:
-                viol("next-call-fails:" + pathgroup(kind), "ping() on the same proxy after the failed call raised %s: %s" % (type(x2).__name__, short(str(x2), 100)))
+                if spec["ns"] == "pyro" and spec["cls"] in ("SecurityError", "SerializeError") and pathgroup(kind) == "direct" and isinstance(x2, E.ConnectionClosedError):
+                    # the daemon re-raises these two after having sent the (fallback) reply, the transport then closes the connection;
+                    # the caller received a plain PyroError, so the proxy does not know that it has to reconnect
+                    viol("next-call-fails:server-closes-connection-after-reply:" + spec["cls"],
+                         "unserialisable %s: the describing PyroError arrived, but the server closed the connection afterwards and the next call on the same proxy raised %s" % (spec["cls"], type(x2).__name__))
+                else:
+                    viol("next-call-fails:" + pathgroup(kind), "ping() on the same proxy after the failed call raised %s: %s" % (type(x2).__name__, short(str(x2), 100)))
     finally:
+        scope.__exit__()
         try:
             p._pyroRelease()
         except Exception:
@@ -524,6 +546,9 @@ def _judge_transportable(case, out, want_good, exp_type, exp_args, exp_vars, vio
         return
     if ser == "marshal" and pg == "batch" and type(x) is ValueError and x.args == ("unmarshallable object",) and exp_args != x.args:
         viol("marshal-batch-exception-unmarshallable", "a failing batch member under marshal: the whole batch reply cannot be marshalled, the caller got ValueError('unmarshallable object') instead of %s%s" % (exp_type.__name__, short(exp_args, 60)))
+        return
+    if type(x) is RuntimeError and str(x).startswith(SPEC_ALTERED):
+        viol("spec-altered-in-transit:" + ser, "call arguments are not delivered unchanged (see C01): %s" % short(str(x), 300))
         return
     if type(x) is not exp_type:
         if pg == "batch" and exp_type is StopIteration and type(x) is RuntimeError and "StopIteration" in str(x):
@@ -595,6 +620,9 @@ def _judge_unserialisable(case, fam, out, want_good, exp_type, exp_args, exp_var
     if how == "returned":
         viol("unserialisable:returned-instead-of-raising:" + kindgroup(kind), "the call returned %s instead of raising" % short(x, 80))
         return
+    if _is_local_comm_failure(x) and spec["ns"] == "pyro" and spec["cls"] in COMM_ERRORS and pg == "direct" and not isinstance(x, E.TimeoutError):
+        viol("commerror-raised-by-method:" + spec["cls"], "remote code raised Pyro5.errors.%s (with unserialisable content); no error reply, the caller got a local %s" % (spec["cls"], type(x).__name__))
+        return
     if _is_local_comm_failure(x):
         viol(_noreply_signature(case), "no error reply: the caller got a locally made %s(%s)" % (type(x).__name__, short(str(x), 60)))
         return
@@ -607,21 +635,33 @@ def _judge_unserialisable(case, fam, out, want_good, exp_type, exp_args, exp_var
     # (a) the original itself arrived (a serializer degraded the offending value instead of failing): class and the
     #     transportable part of the content must then be right
     if type(x) is exp_type and fam != "unknown-class":
-        if fam == "nonlossless-content":
-            ok = V.same(norm(x.args), norm(exp_args))
-        elif sp.get("where") == "arg":
-            ok = V.same(norm(x.args[:len(exp_args) - 1]), norm(exp_args[:-1]))
+        nan_seen = []
+
+        def eq(got, want):
+            got, want = norm(got), norm(want)
+            if V.same(got, want):
+                return True
+            if ser == "serpent" and has_nan(want) and V.same(got, nan_marked(want)):
+                nan_seen.append(got)       # the known serpent nan defect, reported below with its own signature
+                return True
+            return False
+        if "unser" in sp and sp.get("where") == "arg":
+            ok = eq(x.args[:len(exp_args) - 1], exp_args[:-1])
         else:
-            ok = V.same(norm(x.args), norm(exp_args))
+            ok = eq(x.args, exp_args)
+        if ok:
+            ok = eq({k: v for k, v in vars(x).items() if k not in ("_pyroTraceback", "x_bad")}, {k: v for k, v in exp_vars.items() if k != "x_bad"})
         if ok:
             _note(case, "unser-outcome:original-class-delivered")
+            if nan_seen:
+                viol("serpent-nan-in-exception-content", "float nan inside the exception content arrives as serpent's marker dict: %s" % short(nan_seen[0], 120))
             _judge_traceback(case, x, clsname, viol)
             return
     # (b) a Pyro error describing the original
     if isinstance(x, E.PyroError):
         names_type = clsname in text
-        if fam == "unknown-class" and "unser" not in sp:
-            names_msg = True          # see ASSUMPTIONS: only the class name is demanded
+        if spec["ns"] == "local":
+            names_msg = True          # see ASSUMPTIONS: for a class unknown to the receiver only the class name is demanded
             if names_type and exp_msg and exp_msg not in text:
                 _note(case, "observation:unknown-class-message-not-in-error-text")
         else:
@@ -631,7 +671,7 @@ def _judge_unserialisable(case, fam, out, want_good, exp_type, exp_args, exp_var
             return
     # (c) anything else: the original is lost
     if fam == "nonlossless-content" and not isinstance(x, E.PyroError) and not hasattr(x, "_pyroTraceback"):
-        viol("reconstruction-failure-escapes:" + _recon_name(spec),
+        viol("reconstruction-failure-escapes:" + _recon_name(spec, ser),
              "the client could not rebuild %s from the transported args and raised a bare %s(%s) - neither the original nor a Pyro error describing it" % (
                  clsname, qualname(type(x)), short(str(x), 100)))
         return
@@ -642,8 +682,14 @@ def _judge_unserialisable(case, fam, out, want_good, exp_type, exp_args, exp_var
         qualname(type(x)), short(text, 140), clsname, clsname, exp_msg))
 
 
-def _recon_name(spec):
-    return "ExceptionGroup" if "group" in (spec.get("special") or {}) else spec["cls"]
+# where the client-side reconstruction is known to fail because serpent/json do not restore content INSIDE an exception dict
+# (msgpack's object hook works bottom-up, marshal carries bytes natively): a failure elsewhere is a different root cause
+RECON_KNOWN = {("ExceptionGroup", "serpent"), ("ExceptionGroup", "json"), ("UnicodeDecodeError", "serpent")}
+
+
+def _recon_name(spec, ser):
+    name = "ExceptionGroup" if "group" in (spec.get("special") or {}) else spec["cls"]
+    return name if (name, ser) in RECON_KNOWN else "%s:%s" % (name, ser)
 
 
 _NOTES = {}
@@ -690,7 +736,7 @@ def run_codec_case(case):
         if fam == "transportable":
             viol("roundtrip:loads-fails", "loads(dumps(x)) raised %s: %s" % (type(x).__name__, short(str(x), 100)))
         elif not isinstance(x, E.PyroError):
-            viol("reconstruction-failure-escapes:" + _recon_name(spec), "loads(dumps(x)) raised a bare %s(%s)" % (qualname(type(x)), short(str(x), 100)))
+            viol("reconstruction-failure-escapes:" + _recon_name(spec, ser), "loads(dumps(x)) raised a bare %s(%s)" % (qualname(type(x)), short(str(x), 100)))
         return viols
     if fam != "transportable":
         return viols
@@ -715,7 +761,6 @@ def run_codec_case(case):
 # ------------------------------------------------------------------------------------------------
 # specs: canonical and special shapes per class, strategies
 # ------------------------------------------------------------------------------------------------
-UNICODE_ENC = ["UnicodeEncodeError"]
 OS_FAMILY = [n for n in BUILTIN_EXC if issubclass(getattr(builtins, n), OSError)]
 SYNTAX_FAMILY = [n for n in BUILTIN_EXC if issubclass(getattr(builtins, n), SyntaxError)]
 KW_CLASSES = {"ImportError": ["name", "path"], "ModuleNotFoundError": ["name", "path"], "AttributeError": ["name", "obj"], "NameError": ["name"],
@@ -822,9 +867,12 @@ small_value = st.recursive(small_leaf, lambda ch: st.one_of(st.lists(ch, max_siz
 idents = st.text(alphabet="abcxyz_019", max_size=5)
 
 
+CLASS_POOL = ALL_CLASSES * 6 + [("local", n) for n in LOCAL_CLASSES]
+
+
 @st.composite
-def spec_strategy(draw):
-    ns, name = draw(st.sampled_from(ALL_CLASSES))
+def spec_strategy(draw, with_local=False):
+    ns, name = draw(st.sampled_from(CLASS_POOL if with_local else ALL_CLASSES))
     special = None
     shape = draw(st.integers(0, 9))
     args = draw(st.lists(small_value, max_size=3))
@@ -855,10 +903,23 @@ def spec_strategy(draw):
     return {"ns": ns, "cls": name, "args": args, "attrs": attrs, "special": special}
 
 
-def case_strategy(servertype, ser):
-    return st.builds(lambda spec, kind, k: {"level": "live", "servertype": servertype, "ser": ser, "kind": kind,
-                                            "k": k if kind in ("batch-middle", "batch-last", "stream") else 0, "spec": spec},
-                     spec_strategy(), st.sampled_from(KINDS), st.integers(0, 3))
+@st.composite
+def case_strategy(draw, servertype, ser):
+    # kind and k are drawn BEFORE the (long) spec: Hypothesis zero-fills the tail of many examples, which would
+    # otherwise make nearly half of the cases plain calls
+    kind = draw(st.sampled_from(KINDS))
+    k = draw(st.integers(0, 3))
+    detailed = draw(st.integers(0, 3)) == 3
+    unser = draw(st.integers(0, 11))
+    spec = draw(spec_strategy(with_local=True))
+    if unser < 3 and spec["special"] is None:
+        # the "cannot be serialised" family on a random class: offending value as attribute
+        spec["special"] = {"unser": ["socket", "lambda", "object"][unser], "where": "attr"}
+    case = {"level": "live", "servertype": servertype, "ser": ser, "kind": kind,
+            "k": k if kind in ("batch-middle", "batch-last", "stream") else 0, "spec": spec}
+    if detailed:
+        case["detailed"] = True
+    return case
 
 
 def codec_strategy(ser):
@@ -883,6 +944,8 @@ def _labels(case):
     l = ["level:" + case.get("level", "live"), "ser:" + case["ser"], "ns:" + spec["ns"]]
     if case.get("level", "live") == "live":
         l += ["kind:" + case["kind"], "servertype:" + case["servertype"], "family:" + family(case)]
+        if case.get("detailed"):
+            l.append("config:DETAILED_TRACEBACK")
     sp = spec.get("special") or {}
     for k in sorted(sp):
         l.append("special:" + k)
@@ -891,7 +954,9 @@ def _labels(case):
 
 
 def SHARDS(tier):
-    return [{"servertype": t, "ser": s} for t in SERVERTYPES for s in SERIALIZERS]
+    # quick: server type x serializer; thorough: the same twice (part 1 only searches, with its own seed)
+    parts = (0, 1) if tier == "thorough" else (0,)
+    return [{"servertype": t, "ser": s, "part": p} for p in parts for t in SERVERTYPES for s in SERIALIZERS]
 
 
 def enumerated_cases(servertype, ser, tier):
@@ -925,19 +990,21 @@ def codec_cases(ser):
 
 
 def run(ctx):
-    servertype, ser = ctx.shard["servertype"], ctx.shard["ser"]
+    servertype, ser, part = ctx.shard["servertype"], ctx.shard["ser"], ctx.shard.get("part", 0)
     try:
-        if servertype == SERVERTYPES[0]:
-            # the serializer level does not depend on the server type: run it in one of the two shards of each serializer
+        if servertype == SERVERTYPES[0] and part == 0:
+            # the serializer level does not depend on the server type: run it in one of the shards of each serializer
             for case in codec_cases(ser):
                 v = run_case(case)
                 ctx.observe(case, v, _nontrivial(case), _labels(case))
-            ctx.search(codec_strategy(ser), run_case, ctx.n(150, 4000), nontrivial=_nontrivial, labels=_labels, name="codec", max_rounds=8)
-        for case in enumerated_cases(servertype, ser, ctx.tier):
-            v = run_case(case)
-            ctx.observe(case, v, _nontrivial(case), _labels(case))
-        ctx.search(case_strategy(servertype, ser), run_case, ctx.n(300, 5000), nontrivial=_nontrivial, labels=_labels, name="live", max_rounds=8)
+            ctx.search(codec_strategy(ser), run_case, ctx.n(200, 6000), nontrivial=_nontrivial, labels=_labels, name="codec", max_rounds=8)
+        if part == 0:
+            for case in enumerated_cases(servertype, ser, ctx.tier):
+                v = run_case(case)
+                ctx.observe(case, v, _nontrivial(case), _labels(case))
+        ctx.search(case_strategy(servertype, ser), run_case, ctx.n(500, 5000), nontrivial=_nontrivial, labels=_labels,
+                   name="live%d" % part, max_rounds=8)
     finally:
         stop_all()
-    ctx.notes["classes_in_domain"] = len(ALL_CLASSES)
-    ctx.notes["base_only_classes_codec_level"] = len(BUILTIN_BASE_ONLY)
+    ctx.notes["classes_in_domain"] = "%d Exception subclasses of builtins + %d PyroError classes" % (len(BUILTIN_EXC), len(PYRO_EXC))
+    ctx.notes["base_only_classes_codec_level"] = ", ".join(BUILTIN_BASE_ONLY)
